@@ -205,7 +205,10 @@ Inductive ccall :=
 | KDecompress (opened : bool) (chunks : list (option Z)) (close : bool)
 | KConvert (clients : list (option Z)) (expected : list Z).   (* validate_file passes iff the content is `expected` *)
 
-Record C19_case := mkC19 { k_calls : list (ccall * option nat) }.
+Record C19_case := mkC19 {
+  k_calls : list (ccall * option nat);
+  k_stale : bool     (* a stale .partial file (arbitrary content) is in the cache before the first call *)
+}.
 Record C19_obs := mkO19 { o_calls : list ocall }.
 
 Definition the_path : str := [100; 97; 116; 97; 46; 108; 122; 109; 97].   (* "data.lzma" *)
@@ -285,8 +288,11 @@ Fixpoint calls_agree (cs : list (ccall * option nat)) (rs : list (list (ev19 Z) 
 (* decompression cases start with the compressed file in the cache *)
 Definition initial_dir (c : C19_case) : @AtomFS.dir str (list Z) :=
   match k_calls c with
-  | (KDecompress _ _ _, _) :: _ => [(the_path, Whole [])]
-  | _ => []
+  | (KDecompress _ _ _, _) :: _ =>
+      (if k_stale c then [(the_dpath ++ decompress_partial_suffix, Torn)] else []) ++ [(the_path, Whole [])]
+  | (KDownload _ _ _ _ _, _) :: _ => if k_stale c then [(the_path ++ download_partial_suffix, Torn)] else []
+  | (KConvert _ _, _) :: _ => if k_stale c then [(the_spath ++ split_partial_suffix, Torn)] else []
+  | [] => []
   end.
 
 Definition C19_agree (c : C19_case) (o : C19_obs) : bool :=
